@@ -271,3 +271,17 @@ impl SnmpSocket for SnmpV3ClientSocket {
         Some(data.pdu)
     }
 }
+
+// Verification hooks (/verif): access to the private session state.
+#[cfg(gufo_snmp_verif)]
+impl SnmpV3ClientSocket {
+    pub(crate) fn verif_msg_id(&mut self) -> &mut RequestId {
+        &mut self.msg_id
+    }
+    pub(crate) fn verif_engine(&self) -> (&[u8], i64, i64) {
+        (&self.engine_id, self.engine_boots, self.engine_time)
+    }
+    pub(crate) fn verif_keys(&mut self) -> (&mut AuthKey, &mut PrivKey) {
+        (&mut self.auth_key, &mut self.priv_key)
+    }
+}
